@@ -178,6 +178,32 @@ class FakeSession(object):
         pass
 
 
+class TxSession(FakeSession):
+    """FakeSession that remembers what was persisted: the state at the last commit is what a
+    restart (or the end of the request's session) would see."""
+
+    def __init__(self, objs=(), next_id=None):
+        FakeSession.__init__(self, objs, next_id)
+        self.initial = None
+        self.committed = None
+        self.state_commits = 0
+
+    def state(self):
+        return [snapshot(o) for o in self.objs]
+
+    def watch(self):
+        self.initial = self.state()
+        self.committed = self.initial
+        self.state_commits = 0
+
+    def commit(self):
+        FakeSession.commit(self)
+        st = self.state()
+        if st != self.committed:
+            self.state_commits += 1
+            self.committed = st
+
+
 VERSIONS = [(1, 0), (1, 1), (1, 2), (1, 3), (1, 4), (2, 0)]
 KMIP_VERSION = {
     (1, 0): enums.KMIPVersion.KMIP_1_0, (1, 1): enums.KMIPVersion.KMIP_1_1,
@@ -202,7 +228,7 @@ def default_policies():
 
 
 def mk_engine(objs=(), policies=None, identity=("alice", None), version=(1, 2), now=1500000000,
-              crypto=None, next_id=None):
+              crypto=None, next_id=None, session_cls=None):
     """version must be concrete; everything symbolic is assigned under tracing."""
     with NoTracing():
         t = _template()
@@ -218,7 +244,7 @@ def mk_engine(objs=(), policies=None, identity=("alice", None), version=(1, 2), 
         e._object_map = dict(t._object_map)
         if policies is None:
             policies = default_policies()
-    s = FakeSession(objs, next_id=next_id)
+    s = (session_cls or FakeSession)(objs, next_id=next_id)
     e._data_store_session_factory = s
     e._data_session = s
     e._operation_policies = policies
